@@ -21,6 +21,7 @@ import (
 	metricstorage "github.com/flant/shell-operator/pkg/metric_storage"
 	"github.com/flant/shell-operator/pkg/metric_storage/operation"
 	"github.com/flant/shell-operator/pkg/metric_storage/vault"
+	shell_operator "github.com/flant/shell-operator/pkg/shell-operator"
 )
 
 func init() { suites["c16"] = runC16 }
@@ -76,6 +77,10 @@ type c16World struct {
 	gate   *c16Gate
 	fresh  int // counter for metric names never used before in this case
 	run    *c16Runner // the text path's scratch directory and bash hook (c16text.go)
+	// operator world (c16text.go): the storage is the HookMetricStorage of an assembled ShellOperator
+	op     *shell_operator.ShellOperator
+	opDir  string
+	cancel func()
 }
 
 // c16Gate is the prometheus.Registerer handed to the storage (ungrouped vecs) and to the grouped vault:
@@ -698,6 +703,26 @@ func runC16(r *Run) {
 		}
 		w.send("h1", []c16Op{{Group: "gb", Action: "expire"}})
 	})
+	r.One(8, func(c *Case, _ *Rng) {
+		c.Desc = "corpus text: the real queue handler (taskHandler -> handleRunHook -> Hook.Run) of an assembled ShellOperator runs bash hooks: a valid file, a file cut off in its last operation, a file with an operation validation rejects, a blank file, then a typed batch on the same registry"
+		c.Nontrivial = true
+		w, err := newC16OpWorld(r, c)
+		if err != nil {
+			c.Inconcl = "operator world: " + firstLine(err.Error())
+			return
+		}
+		defer w.cancel()
+		a := c16Op{Name: "gg1", Group: "ga", Action: "set", Value: ip(6), Labels: map[string]string{"x": "1"}}
+		b := c16Op{Name: "gc1", Group: "ga", Add: ip(3), Labels: map[string]string{"x": "2"}}
+		u := c16Op{Name: "ug1", Set: ip(3)}
+		w.sendText(r, "h1.sh", []c16Op{a, b, u}, a.jsonLine()+"\n"+b.jsonLine()+"\n"+u.jsonLine()+"\n", "operator")
+		full := b.jsonLine() + "\n" + u.jsonLine() + "\n" + a.jsonLine()
+		w.sendText(r, "h1.sh", []c16Op{b, u, a}, full[:len(full)-3], "operator")
+		w.sendText(r, "h2.sh", []c16Op{b, {Name: "ug1", Action: "expire"}}, b.jsonLine()+"{\"name\":\"ug1\",\"action\":\"expire\"}", "operator")
+		w.sendText(r, "h1.sh", nil, "\n", "operator")
+		w.send("h1.sh", []c16Op{{Name: "gg1", Group: "ga", Action: "set", Value: ip(2), Labels: map[string]string{"x": "3"}}})
+		w.sendText(r, "h1.sh", []c16Op{{Group: "ga", Action: "expire"}}, "{\"group\":\"ga\",\"action\":\"expire\"}", "operator")
+	})
 	// ---- known findings, replayed on every run ----
 	r.One(10, func(c *Case, _ *Rng) {
 		c.Desc = "finding: A sets m{l}; B sets m{l}; A expires -> B's series disappears (ownership by label hash)"
@@ -765,7 +790,21 @@ func runC16(r *Run) {
 	})
 
 	r.Cases(100, r.N(4000, 60000), 0, func(c *Case, rng *Rng) {
-		w := newC16World(c)
+		var w *c16World
+		hooksList := c16Hooks
+		if rng.Chance(4) {
+			// operator world: hook executions go through the real queue handler of an assembled ShellOperator
+			ow, err := newC16OpWorld(r, c)
+			if err != nil {
+				c.Inconcl = "operator world: " + firstLine(err.Error())
+				return
+			}
+			w, hooksList = ow, c16OpHooks
+			defer w.cancel()
+			c.Note("world:operator")
+		} else {
+			w = newC16World(c)
+		}
 		g := &c16Gen{w: w, rng: rng}
 		nb := rng.Range(1, 8)
 		valid, grouped, conc, texts := 0, 0, 0, 0
@@ -773,7 +812,7 @@ func runC16(r *Run) {
 			if rng.Chance(22) {
 				// concurrent step: 2..4 hooks, each with its own group(s), send at the same time
 				k := rng.Range(2, 4)
-				hooks := append([]string{}, c16Hooks...)
+				hooks := append([]string{}, hooksList...)
 				groups := append([]string{}, c16Groups...)
 				rng.Shuffle(len(hooks), func(i, j int) { hooks[i], hooks[j] = hooks[j], hooks[i] })
 				rng.Shuffle(len(groups), func(i, j int) { groups[i], groups[j] = groups[j], groups[i] })
@@ -816,7 +855,7 @@ func runC16(r *Run) {
 				c.Note(fmt.Sprintf("step:concurrent-%d", k))
 				continue
 			}
-			hook := PickOne(rng, c16Hooks)
+			hook := PickOne(rng, hooksList)
 			ops, invalid := g.batch(hook, c16Groups)
 			if rng.Chance(30) {
 				// text step: the batch as the text of the hook's metrics file
@@ -828,6 +867,9 @@ func runC16(r *Run) {
 				via := "file"
 				if rng.Chance(10) {
 					via = "run"
+				}
+				if w.op != nil && rng.Chance(75) {
+					via = "operator"
 				}
 				c.Note("text:" + shape)
 				c.Note("text-via:" + via)
